@@ -12,7 +12,7 @@ use serde_json::{json, Value};
 use std::cell::Cell;
 
 pub fn subs() -> Vec<Sub> {
-    vec![Sub { name: "sequences", run: run_sequences }, Sub { name: "firstcall", run: run_firstcall }]
+    vec![Sub { name: "sequences", run: run_sequences }, Sub { name: "firstcall", run: run_firstcall }, Sub { name: "serde", run: run_serde }]
 }
 
 fn op_strategy(n_pieces: usize, n_texts: usize, n_bins: usize, n: usize) -> impl Strategy<Value = Op> {
@@ -207,7 +207,96 @@ fn run_firstcall(ctx: &Ctx) -> CheckResult {
     Ok(())
 }
 
+/// The crate's own `Serialize` / `Deserialize` code (stack buffers; only the *format crate* may
+/// allocate).  The mock format used here allocates a known amount itself: one `String`/`Vec`
+/// copy of what it is sent, one `Box` for the resulting hash, one clone for the owned-data
+/// visitor entries.  Everything beyond that was allocated by the library.
+pub fn case_serde(api: &dyn GlobalApi, va: &dyn VariantApi, b: &[u8]) -> Result<u64, String> {
+    use crate::api::SerRecord;
+    use crate::mockserde::{DeEvent, DeScript};
+    let v = va.v();
+    let h = va.try_from_array(b).map_err(|e| format!("{}: TryFrom rejected {} with {:?}", v.name, hex(b), e))?;
+    let text = String::from_utf8(vmodel::text::encode(v, b, true)).unwrap();
+    let mut n = 0;
+    for human in [true, false] {
+        let before = api.alloc_count();
+        let r = va.mock_ser(h.as_ref(), human);
+        let used = api.alloc_count() - before;
+        let Some(r) = r else { return Ok(0) };
+        n += 1;
+        match r {
+            SerRecord::Str(_) | SerRecord::Bytes(_) => {
+                if used != 1 {
+                    return Err(format!("{}: serializing {} (human_readable = {}) made {} allocator calls; the mock format itself makes exactly 1", v.name, text, human, used));
+                }
+            }
+            SerRecord::Other(o) => return Err(format!("{}: serialize sent {:?}", v.name, o)),
+        }
+    }
+    let events: [(bool, DeEvent, u64); 6] = [
+        (true, DeEvent::Str(text.clone()), 1),
+        (true, DeEvent::BorrowedStr(text.clone()), 1),
+        (true, DeEvent::String(text.clone()), 2),
+        (false, DeEvent::Bytes(b.to_vec()), 1),
+        (false, DeEvent::BorrowedBytes(b.to_vec()), 1),
+        (false, DeEvent::ByteBuf(b.to_vec()), 2),
+    ];
+    for (human, event, own) in events {
+        let script = DeScript { human, event };
+        let before = api.alloc_count();
+        let r = va.mock_de(&script);
+        let used = api.alloc_count() - before;
+        n += 1;
+        match r {
+            Some(Ok(_)) => {
+                if used != own {
+                    return Err(format!("{}: deserializing {:?} made {} allocator calls; the mock format and the harness make exactly {}", v.name, script, used, own));
+                }
+            }
+            Some(Err(e)) => return Err(format!("{}: deserializing {:?} failed: {}", v.name, script, e)),
+            None => return Ok(0),
+        }
+    }
+    Ok(n)
+}
+
+fn run_serde(ctx: &Ctx) -> CheckResult {
+    if !ctx.api.caps().serde {
+        ctx.skipped("serde: not compiled in this configuration");
+        return Ok(());
+    }
+    let strict = ctx.api.caps().strict;
+    for va in ctx.api.variants() {
+        let v = va.v();
+        let mut hashes = ctx.sample_values(&format!("serde/{}", v.name), ctx.tier.pick(200, 2000), &gens::hash_bytes_strategy(v));
+        for b in hashes.iter_mut() {
+            if strict {
+                b[0] %= 49;
+                b[v.ck] %= 170;
+            }
+        }
+        // warm-up outside the measured region (lazily initialised statics, if any, are C18/firstcall's subject)
+        let _ = case_serde(ctx.api, va, &hashes[0]);
+        for b in &hashes {
+            match case_serde(ctx.api, va, b) {
+                Ok(n) => {
+                    ctx.ev.borrow_mut().evaluations += n;
+                    ctx.ev.borrow_mut().nontrivial_enumerated += n;
+                }
+                Err(m) => return Err(ctx.violation("serde", m, json!({"variant": v.name, "bytes": hex(b)}))),
+            }
+        }
+    }
+    ctx.subcheck("serde", 1);
+    ctx.ev.borrow_mut().sample(json!({"check": "serde", "measured": "Serialize (human-readable and compact), Deserialize through visit_str / visit_borrowed_str / visit_string / visit_bytes / visit_borrowed_bytes / visit_byte_buf"}));
+    Ok(())
+}
+
 pub fn replay(ctx: &Ctx, check: &str, case: &Value) -> Result<(), String> {
+    if check == "serde" {
+        let va = super::codec::variant_of(ctx.api, case)?;
+        return case_serde(ctx.api, va, &super::codec::bytes_of(case, "bytes")?).map(|_| ());
+    }
     let live = Cell::new(true);
     let st = ctx.stats("replay", &live);
     match check {
